@@ -190,13 +190,13 @@ ARCHS = ["x86", "powerpc", "ia64", "arm", "armthumb", "sparc", "arm64", "riscv"]
 
 def run(ctx):
     # ---------------- (M)
-    m = tlc.run("MCBcj", workers=TLC_WORKERS, timeout=900)
+    m = tlc.run("MCBcj", cfg="MCBcj.cfg" if ctx.quick else "MCBcjThorough.cfg", workers=TLC_WORKERS, timeout=1500)
     ctx.add_tlc("MCBcj(8 architectures x 2 directions x 2 offsets x pattern samples; chunk sizes {0,1,3,all}x{0,1,4,all})",
                 m, exhaustive=True)
     if m.violation:
         ctx.violation("model:bcj:" + m.violation, m.out[-4000:], dict(kind="tlc_counterexample"))
     ctx.log("MCBcj:", m.summary())
-    d = tlc.run("MCDelta", workers=2, timeout=600)
+    d = tlc.run("MCDelta", cfg="MCDelta.cfg" if ctx.quick else "MCDeltaThorough.cfg", workers=2 if ctx.quick else TLC_WORKERS, timeout=1200)
     ctx.add_tlc("MCDelta(distances x contents x all chunkings from {0,1,2,5,all})", d, exhaustive=True)
     if d.violation:
         ctx.violation("model:delta:" + d.violation, d.out[-4000:], dict(kind="tlc_counterexample"))
@@ -215,7 +215,7 @@ def run(ctx):
     for a in ARCHS:
         for e in (True, False):
             fr = changed_fraction(recs, a, e)
-            if fr < 0.5:
+            if fr < 0.25:
                 raise MachineryError("inputs for %s (enc=%s) rarely trigger the transform (%.2f): vacuous samples" % (a, e, fr))
     lines = [job_line(r) for r in recs]
 
